@@ -6,8 +6,14 @@
     index <i>                                         listing.index = i
     view                                              index, time, step and every table (names + cells)
     info                                              simulator, result times/steps, table layouts
+    hist <0|1 short> <item> ...                       listing.history(selection, short); item = hexspec/key/hexcol,
+                                                      key = i:<int> | n:<hex>;<hex>
+    times <bits,bits,...>                             the doubles of fulltimes (for `nav time`)
+    nav first|last|next|prev | nav idx <i> | nav time <bits> | nav step <s>
+    snap <k> / same <k>                               remember the current view / compare with a remembered one
+    covers                                            for each result: does re-reading overwrite every cell?
 -/
-import PyTough.Model.ListingFile
+import PyTough.Model.ListingHistory
 import PyTough.Py.Proto
 open Py Model Model.Listing
 
@@ -64,10 +70,55 @@ def runM (st : Rd) (m : M Unit) : Except LErr Rd :=
 
 def bytesToStr (b : ByteArray) : Str := b.toList.map (fun x => Char.ofNat x.toNat)
 
-partial def loop (h out : IO.FS.Stream) (st : IO.Ref (Option Rd)) : IO Unit := do
+structure DSt where
+  rd : Option Rd := none
+  times : List Float := []
+  snaps : List (Nat × Rd) := []
+
+def unhexD (h : String) : Str := if h = "-" then [] else ofHex h
+
+def parseItem (w : String) : Option Item :=
+  match w.splitOn "/" with
+  | [sp, k, c] =>
+    let key : Option HKey :=
+      if k.startsWith "i:" then (k.drop 2).toString.toInt?.map HKey.int
+      else if k.startsWith "n:" then some (HKey.name (((k.drop 2).toString.splitOn ";").map unhexD))
+      else none
+    key.map fun kk => { spec := unhexD sp, key := kk, col := unhexD c }
+  | _ => none
+
+def sameView (a b : Rd) : Bool :=
+  a.time == b.time && a.step == b.step &&
+  a.tables.length == b.tables.length &&
+  (a.tables.zip b.tables).all fun ((n1, t1), (n2, t2)) => n1 == n2 && t1.rows == t2.rows && t1.cols == t2.cols && t1.data == t2.data
+
+def sentinel : FVal := .fin false 7 777
+
+def coversAt (rd : Rd) (j : Nat) : Bool :=
+  let blank : Rd := { rd with tables := rd.tables.map fun (n, t) => (n, { t with data := t.data.map fun r => r.map fun _ => sentinel }) }
+  match (loadResult j).run blank with
+  | .ok (_, s) => s.tables.all fun (_, t) => t.data.all fun r => r.all fun c => c != sentinel
+  | .error _ => false
+
+def fltLt (a b : Float) : Bool := a < b
+def fltDist (a b : Float) : Float := Float.abs (a - b)
+
+def doNav (d : DSt) (rd : Rd) (ws : List String) : Option (Except LErr (Bool × Rd)) :=
+  let N := fileNav rd
+  let steps := rd.fullsteps.toList.map (·.getD 0)
+  let op : Option (Nav.Op Float) := match ws with
+    | ["first"] => some .first | ["last"] => some .last | ["next"] => some .next | ["prev"] => some .prev
+    | ["idx", i] => i.toInt?.map .index
+    | ["time", b] => b.toNat?.map fun n => .time (Float.ofBits n.toUInt64)
+    | ["step", x] => x.toInt?.map .step
+    | _ => none
+  op.map fun o => Nav.apply N fltLt fltDist d.times steps o rd
+
+partial def loop (h out : IO.FS.Stream) (st : IO.Ref DSt) : IO Unit := do
   let line ← h.getLine
   if line.isEmpty then return ()
   let ws := (line.trimAscii.toString.splitOn " ").filter (· ≠ "")
+  let d ← st.get
   let reply ← match ws with
     | ["open", hp, od, sk] => do
       let path := String.ofList (ofHex hp)
@@ -76,23 +127,56 @@ partial def loop (h out : IO.FS.Stream) (st : IO.Ref (Option Rd)) : IO Unit := d
         let skip := if sk = "-" then [] else sk.splitOn ","
         let rd := initRd (bytesToStr bytes) (od = "1") skip
         match runM rd openReader with
-        | .ok s => st.set (some s); pure s!"ok {s.fulltimes.size}"
-        | .error e => st.set none; pure s!"exc {e.toString}"
+        | .ok s => st.set { d with rd := some s }; pure s!"ok {s.fulltimes.size}"
+        | .error e => st.set { d with rd := none }; pure s!"exc {e.toString}"
       catch e => pure s!"ioerror {e}"
     | ["index", i] => do
-      match (← st.get), i.toInt? with
+      match d.rd, i.toInt? with
       | some s, some k =>
         match runM s (setIndex k) with
-        | .ok s' => st.set (some s'); pure s!"ok {s'.index}"
+        | .ok s' => st.set { d with rd := some s' }; pure s!"ok {s'.index}"
         | .error e => pure s!"exc {e.toString}"       -- the Python object would be left half-updated; the harness reopens
       | _, _ => pure "bad-state"
-    | ["view"] => do
-      match (← st.get) with
-      | some s => pure (showView s)
+    | ["view"] => pure (match d.rd with | some s => showView s | none => "bad-state")
+    | ["info"] => pure (match d.rd with | some s => showInfo s | none => "bad-state")
+    | "hist" :: sh :: items => do
+      match d.rd, items.mapM parseItem with
+      | some s, some its =>
+        match (history its (sh = "1")).run s with
+        | .ok (none, s') => st.set { d with rd := some s' }; pure "ok none"
+        | .ok (some series, s') =>
+          st.set { d with rd := some s' }
+          let body := String.intercalate " " (series.map fun (full, h) =>
+            s!"S {if full then 1 else 0} {h.length} " ++ String.intercalate " " (h.map showFVal))
+          pure s!"ok {series.length} {body}"
+        | .error e => pure s!"exc {e.toString}"
+      | _, _ => pure "bad-state"
+    | ["times", bs] => do
+      let ts := (bs.splitOn ",").filterMap fun b => b.toNat?.map fun n => Float.ofBits n.toUInt64
+      st.set { d with times := ts }
+      pure s!"ok {ts.length}"
+    | "nav" :: rest => do
+      match d.rd with
+      | some s =>
+        match doNav d s rest with
+        | some (.ok (moved, s')) => st.set { d with rd := some s' }; pure s!"ok {if moved then 1 else 0} {s'.index}"
+        | some (.error e) => pure s!"exc {e.toString}"
+        | none => pure "bad-op"
       | none => pure "bad-state"
-    | ["info"] => do
-      match (← st.get) with
-      | some s => pure (showInfo s)
+    | ["snap", k] => do
+      match d.rd, k.toNat? with
+      | some s, some kk => st.set { d with snaps := (kk, s) :: d.snaps.filter (·.1 != kk) }; pure "ok"
+      | _, _ => pure "bad-state"
+    | ["same", k] => do
+      match d.rd, k.toNat? with
+      | some s, some kk =>
+        match d.snaps.lookup kk with
+        | some s0 => pure s!"ok {if sameView s s0 then 1 else 0}"
+        | none => pure "bad-state"
+      | _, _ => pure "bad-state"
+    | ["covers"] => do
+      match d.rd with
+      | some s => pure ("ok " ++ String.intercalate "," ((List.range s.fulltimes.size).map fun j => if coversAt s j then "1" else "0"))
       | none => pure "bad-state"
     | _ => pure "bad-op"
   out.putStrLn reply
@@ -102,5 +186,5 @@ partial def loop (h out : IO.FS.Stream) (st : IO.Ref (Option Rd)) : IO Unit := d
 def main : IO Unit := do
   let i ← IO.getStdin
   let o ← IO.getStdout
-  let st ← IO.mkRef (none : Option Rd)
+  let st ← IO.mkRef ({} : DSt)
   loop i o st
